@@ -155,7 +155,8 @@ def run_check(prop, tier, seed, out=sys.stdout):
 
     # ---------------------------------------------------------- determinism
     det = determinism_sample(prop, tier, seed, shadow_dir, results,
-                             cfg.get('det_sample', 4), run_timeout)
+                             int(os.environ.get('VERIF_DET_SAMPLE') or
+                                 cfg.get('det_sample', 4)), run_timeout)
     if det['mismatches']:
         errors.append('determinism self-test: %r' % det['mismatch_idx'])
 
